@@ -15,7 +15,7 @@ inside the defective region is still seen.  torch.max breaks ties towards the fi
 (documented and measured: 0 deviations on 3000 tied maps), so the tie-break is pinned:
 a maximal-but-different cell is a disagreement.
 
-Refined points: tolerance 2e-5·max(1, (r+1)·Σ|P|/|ΣP|) as in C06; |ΣP| < 1e-3·Σ|P| = knife-edge.
+Refined points: tolerance 5e-5·max(1, (r+1)·Σ|P|/|ΣP|) as in C06; |ΣP| < 1e-3·Σ|P| = knife-edge.
 "Refinement reduces the error on a Gaussian" (no overshoot) is NOT a theorem; it is measured
 here and reported in the evidence as `test_error_reduced` (a test, not a verdict).
 """
@@ -315,9 +315,10 @@ def run_case(chk, I, case, mline, f07_known):
                     chk.disagree("find_global_peaks(integral) point == Peaks.globalRefineFlat", {**small, "channel": [s, c]},
                                  list(f), [float(mp[0]), float(mp[1])])
                 else:
-                    tol = 2e-5 * max(1.0, (r + 1) * az / abs(z))
+                    tol = 5e-5 * max(1.0, (r + 1) * az / abs(z))
                     ex, ey = abs(f[0] - float(mp[0])), abs(f[1] - float(mp[1]))
                     chk.extra["max_refine_err_over_tol"] = max(chk.extra.get("max_refine_err_over_tol", 0.0), max(ex, ey) / tol)
+                    chk.extra["max_refine_abs_err_over_kappa"] = max(chk.extra.get("max_refine_abs_err_over_kappa", 0.0), max(ex, ey) * abs(z) / az)
                     if not (ex <= tol and ey <= tol):
                         chk.disagree("find_global_peaks(integral) point == Peaks.globalRefineFlat (tol)",
                                      {**small, "channel": [s, c]}, list(f[:2]), [float(mp[0]), float(mp[1])])
@@ -412,9 +413,9 @@ def main(chk: Check):
                   "maps": [[[0, 0, 0], [0, 8, 0], [0, 0, 0]]]})                           # max == thr is kept
     cases.append({"S": 2, "C": 1, "h": 2, "w": 3, "den": 8, "thr": 0.2, "r": 2, "kind": "fixed", "shape": "fixed",
                   "maps": [[[8, 8, 8], [8, 8, 8]], [[1, 1, 1], [1, 1, 1]]]})              # plateau; first cell
-    for _ in range(chk.n(350, 6000)):
+    for _ in range(chk.n(1000, 8000)):
         cases.append(gen_case(rng))
-    for _ in range(chk.n(120, 2000)):
+    for _ in range(chk.n(300, 3000)):
         cases.append(gen_gauss_case(rng))
 
     lines = [model_line(c, I.tensor(c)) for c in cases]
@@ -444,7 +445,7 @@ if __name__ == "__main__":
         trusted=[
             "Lean 4.33 kernel; axioms ⊆ {propext, Classical.choice, Quot.sound} (audited per run)",
             "hand-written model Peaks.lean of find_global_peaks_rough (repaired: flat argmax + unravel; as-is: separate argmaxes) and "
-            "find_global_peaks; tied to /repo by exact comparison (cell, value, validity) and 2e-5·cond comparison (refined points) on the explored maps only",
+            "find_global_peaks; tied to /repo by exact comparison (cell, value, validity) and 5e-5·cond comparison (refined points) on the explored maps only",
             "torch.max returns the first index on ties (CPU; documented, measured); kornia crop_and_resize = unit sampling at integer "
             "offsets with zero padding for odd patch sizes: modelled, validated by the correspondence",
             "float32 comparisons coincide with comparisons of the rationals the float32 values denote (exact)",
